@@ -6,7 +6,12 @@
    related to the new scope.  Blocks: the input is stored in a fresh slot, every branch starts
    from it, the slots a branch bound and the block's own slot are released (Reset) — the locals
    after a block are the locals before it.  IEqual takes its verdict from outside in the VM model:
-   the run exhibited here supplies the verdict of the evaluator's own equality (`lit_verdict`). *)
+   the run exhibited here supplies the verdict of the evaluator's own equality (`lit_verdict`).
+   Calls of non-capturing functions (`f = #T { body }`, `arg f`): the term-level theorem takes the
+   simulation of calls at the evaluator's current fuel as a hypothesis (Hcf); Section Program
+   discharges it for `call mods n`, every n, by induction on the fuel (`call_simulates`): Call
+   pushes the callee's frame (its locals above the caller's), the callee's code runs by the
+   term-level theorem at fuel n-1, the exhausted frame is popped and the caller resumes. *)
 From Coq Require Import ZArith List Bool Lia.
 From Quiver Require Import lang.Lang lang.LangProofs lang.LangCompile lang.LangSimplify lang.LangSimplifyProofs.
 From Quiver Require vm.Vm.
@@ -1285,7 +1290,7 @@ Section Sim.
     Forall (fun c => forall e v, nt (ev c e v)) cs -> forall e v, nt (seq_with ev cs e v).
   Proof.
     intros ev cs H. induction H as [|c r Hc _ IH]; intros e v; cbn [seq_with]; [apply nt_ret|].
-    apply nt_bind; [apply Hc|]. intros x. destruct r; [apply nt_ret|]. destruct (is_nil (fst x)); [intros g b w; discriminate | apply IH].
+    apply nt_bind; [apply Hc|]. intros x. destruct r; [apply nt_ret|]. destruct (is_nil (fst x)); [intros ? ? ?; discriminate | apply IH].
   Qed.
   Lemma fields_with_nt : forall (ev : chain -> env -> value -> res (value * env)) fs,
     Forall (fun f => match f with TupleField _ (FChain c) => forall e v, nt (ev c e v) | _ => True end) fs ->
@@ -1293,7 +1298,7 @@ Section Sim.
   Proof.
     intros ev fs H. induction H as [|[l [c|x]] r Hf _ IH]; intros e v acc inh; cbn [fields_with]; [apply nt_ret| |].
     - apply nt_bind; [apply Hf | intros; apply IH].
-    - destruct (match x with Some x0 => lookup_var x0 e | None => Some v end) as [[| | | |]|]; try (intros g b w; discriminate). apply IH.
+    - destruct (match x with Some x0 => lookup_var x0 e | None => Some v end) as [[| | | |]|]; try (intros ? ? ?; discriminate). apply IH.
   Qed.
   Lemma branches_with_nt : forall (ev : sequence -> env -> value -> res (value * env)) bs,
     Forall (fun br => match br with Branch c k => (forall e v, nt (ev c e v)) /\ Popt (fun s => forall e v, nt (ev s e v)) k end) bs ->
@@ -1327,9 +1332,9 @@ Section Sim.
       + apply fields_with_nt.
         assert (Hcomp : Forall (fun f => match f with TupleField _ (FChain ch) => compilable_c ch | _ => True end) fs).
         { destruct name; try discriminate; destruct (fields_go fs 0 sc []) as [r|] eqn:Hg; try discriminate; eapply fields_go_compilable; exact Hg. }
-        clear Hc. induction Hfs as [|[l [chn|x]] r Hf _ IH]; [constructor| |constructor; [exact I | inversion Hcomp; auto]].
-        inversion Hcomp; subst. constructor; [intros e0 v0; apply Hf; assumption | auto].
-      + intros [[fs' inh] e']. destruct name; [apply nt_ret | apply nt_ret | destruct inh; [apply nt_ret | intros g b w; discriminate]].
+        clear Hc. revert Hcomp. induction Hfs as [|[l [chn|x]] r Hf _ IH]; intros Hcomp; [constructor| |constructor; [exact I | inversion Hcomp; subst; apply IH; assumption]].
+        inversion Hcomp; subst. constructor; [intros e0 v0; apply Hf; assumption | apply IH; assumption].
+      + intros [[fs' inh] e']. destruct name; [apply nt_ret | apply nt_ret | destruct inh; [apply nt_ret | intros ? ? ?; discriminate]].
     - intros segs _ (sc & c & sc' & Hc). discriminate.
     - intros p _ ctx e v. rewrite eval_term_match. apply nt_do_match.
     - intros [bs] Hb (sc & c & sc' & Hc) ctx e v. rewrite eval_term_block. apply nt_with_env. apply Hb.
@@ -1338,8 +1343,8 @@ Section Sim.
     - intros tps pt rt body _ (sc & c & sc' & Hc). discriminate.
     - intros [src path] (sc & c & sc' & Hc) ctx e v. cbn [compile_term] in Hc. cbn [Lang.eval_term].
       destruct src as [[y| | |p| |b|[y|]|]|]; try discriminate.
-      + destruct (lookup_var y e); [|intros g b w; discriminate]. apply nt_with_env, nt_bind; [apply nt_access_all|].
-        intros x. unfold apply_value. destruct (is_callable x); [apply Hcf_nt | apply nt_ret].
+      + destruct (lookup_var y e); [|intros ? ? ?; discriminate]. apply nt_with_env, nt_bind; [apply nt_access_all|].
+        intros x. unfold apply_value. destruct (is_callable x); [intros ? ? ?; apply Hcf_nt | apply nt_ret].
       + apply nt_with_env, nt_access_all.
       + apply nt_with_env, nt_access_all.
     - intros t _ (sc & c & sc' & Hc). discriminate.
@@ -1351,23 +1356,26 @@ Section Sim.
     - intros mp ts Hts (sc & c & sc' & Hc) ctx e v.
       destruct (fun_binding (Chain mp ts)) as [[[f pt] body]|] eqn:Hfb.
       { unfold fun_binding in Hfb. destruct mp as [[x|l| | | | | | | | |]|]; try discriminate.
-        destruct ts as [|t [|t2 ts']]; try discriminate; destruct t; try discriminate.
-        rewrite eval_chain_some. cbn [terms_with Lang.eval_term bind ret tick fst snd]. apply nt_tick, nt_tick, nt_do_match. }
+        destruct ts as [|t [|t2 ts']]; try discriminate; destruct t; try discriminate;
+          destruct parameter_type; try discriminate; destruct body0; try discriminate.
+        all: try (rewrite eval_chain_some; cbn [terms_with Lang.eval_term bind ret tick fst snd]; apply nt_tick, nt_tick, nt_do_match). }
       rewrite (compile_chain_eq _ _ _ Hfb) in Hc. destruct (terms_go ts sc) as [r|] eqn:Hg; [|discriminate].
       pose proof (terms_go_compilable _ _ _ Hg) as Hcomp.
       assert (Hts' : forall e0 v0, nt (terms_with (eval_term tf cf imf ctx) ts e0 v0)).
-      { apply terms_with_nt. clear Hc Hg. induction Hts as [|t r0 Ht _ IH]; [constructor|]. inversion Hcomp; subst.
-        constructor; [intros; apply Ht; assumption | auto]. }
+      { apply terms_with_nt. clear Hc Hg Hfb. revert Hcomp. induction Hts as [|t r0 Ht _ IH]; intros Hcomp; [constructor|].
+        constructor; [intros e0 v0; apply (Ht (Forall_inv Hcomp)) | apply IH; exact (Forall_inv_tail Hcomp)]. }
       destruct mp as [p|]; [rewrite eval_chain_some | rewrite eval_chain_none; apply Hts'].
       apply nt_bind; [apply Hts' | intros; apply nt_do_match].
     - intros cs Hcs (sc & c & sc' & Hc) ctx e v. cbn [seq_chains] in Hc. rewrite eval_sequence_eq. apply seq_with_nt.
-      pose proof (seq_go_compilable _ _ _ Hc) as Hcomp. clear Hc.
-      induction Hcs as [|chn r Hch _ IH]; [constructor|]. inversion Hcomp; subst. constructor; [intros; apply Hch; assumption | auto].
+      pose proof (seq_go_compilable _ _ _ Hc) as Hcomp. clear Hc. revert Hcomp.
+      induction Hcs as [|chn r Hch _ IH]; intros Hcomp; [constructor|]. constructor; [intros e0 v0; apply (Hch (Forall_inv Hcomp)) | apply IH; exact (Forall_inv_tail Hcomp)].
     - intros cd k Hc Hk. split; [exact Hc | exact Hk].
     - intros bs Hbs (b & scb & cb & Hb) ctx e v. rewrite eval_expr_eq. apply branches_with_nt.
-      pose proof (br_go_compilable _ _ _ _ Hb) as Hcomp. clear Hb.
-      induction Hbs as [|[cd k] r [Hc Hk] _ IH]; [constructor|]. inversion Hcomp as [|? ? [Hcc Hkk] Hrest]; subst.
-      constructor; [|auto]. split; [intros; apply Hc; assumption|]. destruct k; cbn in *; [intros; apply Hk; assumption | exact I].
+      pose proof (br_go_compilable _ _ _ _ Hb) as Hcomp. clear Hb. revert Hcomp.
+      induction Hbs as [|br r Hbr _ IH]; intros Hcomp; [constructor|]. destruct br as [cd k]. destruct Hbr as [Hc Hk].
+      pose proof (Forall_inv Hcomp) as [Hcc Hkk]. cbn beta iota in Hcc, Hkk.
+      constructor; [|apply IH; exact (Forall_inv_tail Hcomp)]. split; [intros e0 v0; apply Hc; exact Hcc|].
+      destruct k; cbn [Popt] in *; [intros e0 v0; apply Hk; exact Hkk | exact I].
   Qed.
 
   Lemma step_call : forall pc k fd ma stk locs,
@@ -1396,51 +1404,138 @@ Section Sim.
 End Sim.
 
 (* ------------------------------------------------------------------------------------------
-   Whole programs of the fragment: the VM started on the compiled entry function (as
-   `spawn_process` starts it: the nil argument on the stack, no locals) reaches the end of the code
-   with the evaluator's value on the stack, pops the frame and finishes with that value. *)
-Theorem compile_program_correct :
-  forall (P : mprogram) (fn : nat) (pool : list Z) (shapes : list shape) (p : program) (code : list instr) (pers : bool),
-    compile_program pool shapes isfun fnum p = Some code ->
-    nth_error (p_funcs P) fn = Some (mk_func code 0) ->
-    (forall z k, const_index pool z = Some k -> nth_error (p_consts P) k = Some (CInt z)) ->
-    (forall sh t, shape_index shapes sh = Some t -> nth_error (p_tuples P) t = Some (length (snd sh))) ->
-    (exists r, shapes = nil_shape :: ok_shape :: r) ->
-    forall mods n v w, eval_program mods n p = Ret v w ->
-    exists mv ls,
-      vrel shapes v mv /\
-      star P (Quiver.vm.Vm.init_state fn [] mnil pers) (st fn 0 0 [] pers (length code) [mv] ls) /\
-      (forall x, step P (st fn 0 0 [] pers (length code) [mv] ls) x =
-                 Next (mk_state [mv] (if pers then ls else []) [] pers)) /\
-      (forall x, step P (mk_state [mv] (if pers then ls else []) [] pers) x =
-                 Quiver.vm.Vm.Finished mv (mk_state [] (if pers then ls else []) [] pers)).
+   Calls: the evaluator's `call mods n` is simulated by Call / the callee's frame / the frame
+   pop, for every fuel n (induction on n; at each level the simulation of the callee's body is
+   `compile_simulates_all` instantiated at the callee's function). *)
+Lemma apply_builtin_no_tail : forall b arg g x w, apply_builtin b arg <> TailC g x w.
 Proof.
-  intros P fn pool shapes [ss] code pers Hc Hfn Hpool Hshapes Hsh0 mods n v w Hev.
-  destruct n as [|n]; [discriminate|]. unfold eval_program, run_program in Hev.
-  unfold compile_program in Hc. destruct (collect_aliases ss) eqn:Hal; [|discriminate].
-  destruct (compile_seq pool shapes isfun fnum [None] (collect_chains ss)) as [[c sc']|] eqn:Hcs; [|discriminate].
-  inversion Hc; subst code. clear Hc.
-  destruct (seq_with (eval_chain n (call mods n) (eval_import mods n) (mkCtx vnil None [])) (collect_chains ss) [] vnil)
-    as [[v' e'] w'| | |] eqn:Hs; try discriminate.
-  cbn in Hev. inversion Hev; subst v'. clear Hev.
-  set (C := IStore :: ILoad 0 :: c) in *.
-  assert (Hat : code_at C 2 c). { exists [IStore; ILoad 0], []. rewrite app_nil_r. split; reflexivity. }
-  destruct (compile_seq_simulates P fn C 0 Hfn pool shapes Hpool Hshapes Hsh0 0%nat [] pers n (call mods n) (eval_import mods n)
-              (mkCtx vnil None []) (collect_chains ss) [None] c sc' Hcs [] vnil v e' w' 2%nat [] [mnil] mnil []
-              Hs Hat (erel_param shapes mnil) (vrel_nil P shapes Hshapes Hsh0) eq_refl)
-    as (mv & ls & sc'' & Hst & Hv & Her & _ & _).
-  exists mv, ls. split; [exact Hv|]. split; [|split].
-  - eapply star_step with (x := x0).
-    { change (Quiver.vm.Vm.init_state fn [] mnil pers) with (st fn 0 0 [] pers 0 [mnil] []).
-      apply (step_store P fn C 0 Hfn 0 [] pers 0 mnil [] []). reflexivity. }
-    eapply star_step with (x := x0).
-    { apply (step_load P fn C 0 Hfn 0 [] pers 1 0 mnil [] [mnil]); reflexivity. }
-    cbn [app] in Hst. exact Hst.
-  - intros x. unfold st, Quiver.vm.Vm.step. cbn [Quiver.vm.Vm.frames Quiver.vm.Vm.fr_fn Quiver.vm.Vm.fr_pc].
-    unfold Quiver.vm.Vm.code_of. rewrite Hfn. cbn [option_map Quiver.vm.Bytecode.f_code].
-    rewrite (proj2 (nth_error_None C (length C))) by lia. cbn. destruct pers; reflexivity.
-  - intros x. reflexivity.
+  intros b arg g x w. unfold apply_builtin, int2.
+  repeat match goal with |- context [if b =? ?k then _ else _] => destruct (b =? k) end;
+  destruct arg as [z|bs|n [|[l1 [z1|b1|n1 f1|? ? ? ?|?]] [|[l2 [z2|b2|n2 f2|? ? ? ?|?]] [|f3 r]]]|? ? ? ?|?];
+  cbn; try discriminate;
+  repeat match goal with |- context [if ?c then _ else _] => destruct c end; discriminate.
 Qed.
+
+Lemma call_no_tail : forall mods n f a acc g x w, call mods n f a acc <> TailC g x w.
+Proof.
+  intros mods. induction n as [|n IH]; intros f a acc g x w; [discriminate|]. rewrite call_S.
+  destruct f as [z0|bs0|nm0 fs0|nl body cenv te|b]; try discriminate.
+  - destruct body as [body|]; [|discriminate].
+    destruct (eval_expr n (call mods n) (eval_import mods n) _ body cenv a); try discriminate. apply IH.
+  - pose proof (apply_builtin_no_tail b a) as Hb. destruct (apply_builtin b a); cbn; try discriminate.
+    exfalso. eapply Hb. reflexivity.
+Qed.
+
+Section Program.
+  Variable P : mprogram.
+  Variable pool : list Z.
+  Variable shapes : list shape.
+  Variable isfun : atom -> bool.
+  Variable fnum : expression -> option nat.
+  Hypothesis Hpool : forall z k, const_index pool z = Some k -> nth_error (p_consts P) k = Some (CInt z).
+  Hypothesis Hshapes : forall sh t, shape_index shapes sh = Some t -> nth_error (p_tuples P) t = Some (length (snd sh)).
+  Hypothesis Hsh0 : exists r, shapes = nil_shape :: ok_shape :: r.
+  Hypothesis Hfuns : forall body k, fnum body = Some k ->
+    exists code, function_code pool shapes isfun fnum body = Some code /\ nth_error (p_funcs P) k = Some (mk_func code 0).
+  Variable mods : list (list atom * program).
+
+  (* the statement `Hcf` of the simulation, for one fuel level and EVERY caller frame *)
+  Definition call_simulated (n : nat) : Prop :=
+    forall fn C caps base rest pers, nth_error (p_funcs P) fn = Some (mk_func C caps) ->
+    forall body cenv te k a acc r w ma pc stk locs,
+      fnum body = Some k -> call mods n (VClos false (Some body) cenv te) a acc = Ret r w -> vrel shapes a ma ->
+      nth_error C pc = Some ICall ->
+      exists mr, star P (st fn caps base rest pers pc (MFun k [] :: ma :: stk) locs)
+                        (st fn caps base rest pers (S pc) (mr :: stk) locs) /\ vrel shapes r mr.
+
+  Theorem call_simulates : forall n, call_simulated n.
+  Proof.
+    induction n as [|n IH]; intros fn C caps base rest pers Hfn body cenv te k a acc r w ma pc stk locs Hk Hcall Hva Hpc;
+      [discriminate|].
+    rewrite call_S in Hcall.
+    destruct (Hfuns _ _ Hk) as (code & Hcode & Hfk).
+    unfold function_code in Hcode.
+    destruct (compile_term pool shapes isfun fnum [] (Block body)) as [[c sc']|] eqn:Hcb; [|discriminate]. inversion Hcode; subst code. clear Hcode.
+    (* the body never makes a tail call, so the call returns the body's value *)
+    destruct body as [bs].
+    assert (Hnt : nt (eval_expr n (call mods n) (eval_import mods n) (mkCtx a (Some (VClos false (Some (Expression bs)) cenv te)) te) (Expression bs) cenv a)).
+    { destruct (compiled_no_tail pool shapes isfun fnum n (call mods n) (eval_import mods n) (call_no_tail mods n)) as (_ & _ & _ & He).
+      apply He. rewrite compile_term_block in Hcb. destruct (br_go pool shapes isfun fnum (length (@nil (option atom))) ([] ++ [None]) bs) as [cb|] eqn:Hb; [|discriminate].
+      exists (length (@nil (option atom))), ([] ++ [None]), cb. exact Hb. }
+    destruct (eval_expr n (call mods n) (eval_import mods n) _ (Expression bs) cenv a) as [r' w'|g x w0| |] eqn:Hbody; try discriminate;
+      [|exfalso; eapply Hnt; reflexivity].
+    inversion Hcall; subst r'. clear Hcall.
+    (* the machine: Call pushes the callee's frame ... *)
+    set (callee_rest := mk_frame fn base caps pc :: rest).
+    assert (Hterm : eval_term n (call mods n) (eval_import mods n) (mkCtx a (Some (VClos false (Some (Expression bs)) cenv te)) te)
+                              (Block (Expression bs)) cenv a = Ret (r, cenv) (st_add w' st0)).
+    { rewrite eval_term_block. unfold with_env. rewrite Hbody. reflexivity. }
+    assert (Hat : code_at c 0 c). { exists [], []. rewrite app_nil_r. split; reflexivity. }
+    destruct (compile_block_simulates P k c 0 Hfk pool shapes Hpool Hshapes Hsh0 isfun fnum Hfuns (length locs) callee_rest pers
+                n (call mods n) (eval_import mods n)
+                (fun body0 cenv0 te0 k0 a0 acc0 r0 w0 ma0 pc0 stk0 locs0 => IH k c 0%nat (length locs) callee_rest pers Hfk body0 cenv0 te0 k0 a0 acc0 r0 w0 ma0 pc0 stk0 locs0)
+                bs _ [] c sc' Hcb cenv a r cenv _ 0%nat stk [] ma locs Hterm Hat (erel_nil shapes isfun fnum cenv) Hva eq_refl)
+      as (mr & ls' & Hst & Hvr & Her & _).
+    assert (Hsc : sc' = []).
+    { rewrite compile_term_block in Hcb.
+      destruct (br_go pool shapes isfun fnum (length (@nil (option atom))) ([] ++ [None]) bs); [|discriminate]. inversion Hcb; reflexivity. }
+    subst sc'. pose proof (erel_length _ _ _ _ _ _ Her) as Hl.
+    destruct ls'; [|discriminate]. clear Hl.
+    exists mr. split; [|exact Hvr].
+    eapply star_step. { apply (step_call P fn C caps Hfn base rest pers pc k _ ma stk locs Hpc Hfk). }
+    rewrite !app_nil_r in *. eapply star_trans; [exact Hst|].
+    (* ... and the exhausted frame is popped: the caller continues after the Call *)
+    eapply star_step with (x := x0); [|constructor].
+    unfold st, Quiver.vm.Vm.step. cbn [Quiver.vm.Vm.frames Quiver.vm.Vm.fr_fn Quiver.vm.Vm.fr_pc].
+    unfold Quiver.vm.Vm.code_of. rewrite Hfk. cbn [option_map Quiver.vm.Bytecode.f_code].
+    rewrite (proj2 (nth_error_None c (0 + length c))) by lia. unfold callee_rest. cbn.
+    rewrite Bool.andb_false_r. rewrite firstn_all. reflexivity.
+  Qed.
+
+  (* Whole programs of the fragment: the VM started on the compiled entry function (as
+     `spawn_process` starts it: the nil argument on the stack, no locals) reaches the end of the
+     code with the evaluator's value on the stack, pops the frame and finishes with that value. *)
+  Theorem compile_program_correct :
+    forall (fn : nat) (p : program) (code : list instr) (pers : bool),
+      compile_program pool shapes isfun fnum p = Some code ->
+      nth_error (p_funcs P) fn = Some (mk_func code 0) ->
+      forall n v w, eval_program mods n p = Ret v w ->
+      exists mv ls,
+        vrel shapes v mv /\
+        star P (Quiver.vm.Vm.init_state fn [] mnil pers) (st fn 0 0 [] pers (length code) [mv] ls) /\
+        (forall x, step P (st fn 0 0 [] pers (length code) [mv] ls) x =
+                   Next (mk_state [mv] (if pers then ls else []) [] pers)) /\
+        (forall x, step P (mk_state [mv] (if pers then ls else []) [] pers) x =
+                   Quiver.vm.Vm.Finished mv (mk_state [] (if pers then ls else []) [] pers)).
+  Proof.
+    intros fn [ss] code pers Hc Hfn n v w Hev.
+    destruct n as [|n]; [discriminate|]. unfold eval_program, run_program in Hev.
+    unfold compile_program in Hc. destruct (collect_aliases ss) eqn:Hal; [|discriminate].
+    destruct (compile_seq pool shapes isfun fnum [None] (collect_chains ss)) as [[c sc']|] eqn:Hcs; [|discriminate].
+    inversion Hc; subst code. clear Hc.
+    destruct (seq_with (eval_chain n (call mods n) (eval_import mods n) (mkCtx vnil None [])) (collect_chains ss) [] vnil)
+      as [[v' e'] w'| | |] eqn:Hs; try discriminate.
+    cbn in Hev. inversion Hev; subst v'. clear Hev.
+    set (C := IStore :: ILoad 0 :: c) in *.
+    assert (Hat : code_at C 2 c). { exists [IStore; ILoad 0], []. rewrite app_nil_r. split; reflexivity. }
+    destruct (compile_seq_simulates P fn C 0 Hfn pool shapes Hpool Hshapes Hsh0 isfun fnum Hfuns 0%nat [] pers n (call mods n) (eval_import mods n)
+                (fun body0 cenv0 te0 k0 a0 acc0 r0 w0 ma0 pc0 stk0 locs0 => call_simulates n fn C 0%nat 0%nat [] pers Hfn body0 cenv0 te0 k0 a0 acc0 r0 w0 ma0 pc0 stk0 locs0)
+                (mkCtx vnil None []) (collect_chains ss) [None] c sc' Hcs [] vnil v e' w' 2%nat [] [mnil] mnil []
+                Hs Hat (erel_param shapes isfun fnum [] mnil) (vrel_nil P pool shapes Hshapes Hsh0 isfun fnum Hfuns) eq_refl)
+      as (mv & ls & sc'' & Hst & Hv & Her & _ & _).
+    exists mv, ls. split; [exact Hv|]. split; [|split].
+    - eapply star_step with (x := x0).
+      { change (Quiver.vm.Vm.init_state fn [] mnil pers) with (st fn 0 0 [] pers 0 [mnil] []).
+        apply (step_store P fn C 0 Hfn 0 [] pers 0 mnil [] []). reflexivity. }
+      eapply star_step with (x := x0).
+      { apply (step_load P fn C 0 Hfn 0 [] pers 1 0 mnil [] [mnil]); reflexivity. }
+      cbn [app] in Hst. exact Hst.
+    - intros x. unfold st, Quiver.vm.Vm.step. cbn [Quiver.vm.Vm.frames Quiver.vm.Vm.fr_fn Quiver.vm.Vm.fr_pc].
+      unfold Quiver.vm.Vm.code_of. rewrite Hfn. cbn [option_map Quiver.vm.Bytecode.f_code].
+      rewrite (proj2 (nth_error_None C (length C))) by lia. cbn. destruct pers; reflexivity.
+    - intros x. reflexivity.
+  Qed.
+End Program.
 
 (* non-vacuity: `x = 5, [x, A[l: 2, ~]] .1` compiles (33 instructions, the ones the real compiler
    emits) and evaluates to A[l: 2, Ok] *)
@@ -1454,7 +1549,7 @@ Definition ex_slice_prog : program :=
                                           TupleField None (FChain (Chain None [Access (mkAccess (Some Ripple) [])]))]]))];
                  Access (mkAccess None [Index 1])]])].
 Example ex_slice :
-  exists code, compile_program [5; 2] [nil_shape; ok_shape; (Some 200, [Some 101; None]); (None, [None; None])] ex_slice_prog = Some code /\
+  exists code, compile_program [5; 2] [nil_shape; ok_shape; (Some 200, [Some 101; None]); (None, [None; None])] (fun _ => false) (fun _ => None) ex_slice_prog = Some code /\
                length code = 33%nat /\
   exists w, eval_program [] 3 ex_slice_prog = Ret (VTuple (Some 200) [(Some 101, VInt 2); (None, vok)]) w.
 Proof. eexists. split; [vm_compute; reflexivity|]. split; [reflexivity|]. eexists. vm_compute. reflexivity. Qed.
@@ -1477,10 +1572,10 @@ Definition ex_block1_prog : program :=
                    [Branch (Sequence [Chain (Some (MIdentifier 101)) [Access (mkAccess (Some Ripple) [])];
                                       Chain None [Tuple Anonymous [TupleField None (FChain (Chain None [Access (mkAccess (Some (Identifier 101)) [])]))]]]) None])]])].
 Example ex_blocks :
-  (exists code, compile_program [5; 6; 1] [nil_shape; ok_shape; (None, [None; None])] ex_block_prog = Some code /\
+  (exists code, compile_program [5; 6; 1] [nil_shape; ok_shape; (None, [None; None])] (fun _ => false) (fun _ => None) ex_block_prog = Some code /\
                 In (IEqual 2) code /\ In (IReset 2) code /\ In (IReset 1) code) /\
   (exists w, eval_program [] 3 ex_block_prog = Ret (VTuple None [(None, VInt 5); (None, VInt 5)]) w /\ n_fallthrough w = 1) /\
-  (exists code, compile_program [7] [nil_shape; ok_shape; (None, [None])] ex_block1_prog = Some code /\
+  (exists code, compile_program [7] [nil_shape; ok_shape; (None, [None])] (fun _ => false) (fun _ => None) ex_block1_prog = Some code /\
                 skipn (length code - 2) code = [IReset 2; IReset 1]) /\
   (exists w, eval_program [] 3 ex_block1_prog = Ret (VTuple None [(None, VInt 7)]) w).
 Proof.
@@ -1490,16 +1585,42 @@ Proof.
   eexists. vm_compute. reflexivity.
 Qed.
 
+(* non-vacuity for calls: `f = #'int { [~, ~] }, 5 f` — the function literal (function 0 of the
+   table: store; load 0; pick 0; pick 1; tuple; rotate 2; pop; reset 0), the binder, `load 1; call` *)
+Definition ex_call_prog : program :=
+  Program [StmtExpression (Sequence
+    [Chain (Some (MIdentifier 102))
+       [Function [] (Some (TPrimitive PInt)) None
+          (Some (Expression [Branch (Sequence [Chain None [Tuple Anonymous [TupleField None (FChain (Chain None [Access (mkAccess (Some Ripple) [])]));
+                                                                            TupleField None (FChain (Chain None [Access (mkAccess (Some Ripple) [])]))]]]) None]))];
+     Chain None [Literal (LInteger 5); Access (mkAccess (Some (Identifier 102)) [])]])].
+Example ex_call :
+  (exists code, compile_program [5] [nil_shape; ok_shape; (None, [None; None])] (fun x => x =? 102) (fun _ => Some 0%nat) ex_call_prog = Some code /\
+                In (IFunction 0) code /\ skipn (length code - 2) code = [ILoad 1; ICall]) /\
+  (exists fc, function_code [5] [nil_shape; ok_shape; (None, [None; None])] (fun x => x =? 102) (fun _ => Some 0%nat)
+                (Expression [Branch (Sequence [Chain None [Tuple Anonymous [TupleField None (FChain (Chain None [Access (mkAccess (Some Ripple) [])]));
+                                                                            TupleField None (FChain (Chain None [Access (mkAccess (Some Ripple) [])]))]]]) None]) = Some fc /\
+              fc = [IStore; ILoad 0; IPick 0; IPick 1; ITuple 2; IRotate 2; IPop; IReset 0]) /\
+  (exists w, eval_program [] 3 ex_call_prog = Ret (VTuple None [(None, VInt 5); (None, VInt 5)]) w /\ n_closure_call w = 1).
+Proof.
+  split; [eexists; split; [vm_compute; reflexivity | split; [cbn; intuition | reflexivity]]|].
+  split; [eexists; split; [vm_compute; reflexivity | reflexivity]|].
+  eexists. vm_compute. split; reflexivity.
+Qed.
+
 (* ... and, composed with C02_normalize_preserves_value: what the compiler does — normalise the
    blocks, then generate code — computes the value the reference evaluator assigns to the ORIGINAL
    program (for results without function values, which is all the fragment has) *)
 Theorem normalize_then_compile_correct :
-  forall (P : mprogram) (fn : nat) (pool : list Z) (shapes : list shape) (p : program) (code : list instr) (pers : bool),
-    compile_program pool shapes isfun fnum (normalize p) = Some code ->
-    nth_error (p_funcs P) fn = Some (mk_func code 0) ->
+  forall (P : mprogram) (pool : list Z) (shapes : list shape) (isfun : atom -> bool) (fnum : expression -> option nat),
     (forall z k, const_index pool z = Some k -> nth_error (p_consts P) k = Some (CInt z)) ->
     (forall sh t, shape_index shapes sh = Some t -> nth_error (p_tuples P) t = Some (length (snd sh))) ->
     (exists r, shapes = nil_shape :: ok_shape :: r) ->
+    (forall body k, fnum body = Some k ->
+       exists code, function_code pool shapes isfun fnum body = Some code /\ nth_error (p_funcs P) k = Some (mk_func code 0)) ->
+    forall (fn : nat) (p : program) (code : list instr) (pers : bool),
+    compile_program pool shapes isfun fnum (normalize p) = Some code ->
+    nth_error (p_funcs P) fn = Some (mk_func code 0) ->
     forall mods n v w, eval_program mods n p = Ret v w -> closure_free v ->
     exists mv ls,
       vrel shapes v mv /\
@@ -1509,7 +1630,7 @@ Theorem normalize_then_compile_correct :
       (forall x, step P (mk_state [mv] (if pers then ls else []) [] pers) x =
                  Quiver.vm.Vm.Finished mv (mk_state [] (if pers then ls else []) [] pers)).
 Proof.
-  intros P fn pool shapes p code pers Hc Hfn Hpool Hshapes Hsh0 mods n v w Hev Hcf.
+  intros P pool shapes isfun fnum Hpool Hshapes Hsh0 Hfuns fn p code pers Hc Hfn mods n v w Hev Hcf.
   destruct (normalize_preserves_value mods n p v w Hev Hcf) as [w' Hn].
-  exact (compile_program_correct P fn pool shapes (normalize p) code pers Hc Hfn Hpool Hshapes Hsh0 (nmods mods) n v w' Hn).
+  exact (compile_program_correct P pool shapes isfun fnum Hpool Hshapes Hsh0 Hfuns (nmods mods) fn (normalize p) code pers Hc Hfn n v w' Hn).
 Qed.
